@@ -182,7 +182,7 @@ def main(run, mc=None, budget=None, finish=True):
     comprehension forms too), with a smaller bound and budget"""
     rng = random.Random(run.seed)
     q = run.quick
-    mc = mc or (3 if q else 4)
+    mc = mc or 3      # (clause lists of 4 make TLC's export alone run for the better part of an hour)
     r = tlc.run("HyCompr", tlc.cfg(constants={"MaxClauses": mc},
                                    invariants=["NoLeak", "ElseOnce", "ElseWithoutBreak", "EmptyOuter", "YieldAfterFinal", "Export"]),
                 run.work, workers=16, label="compr", timeout=3000)
@@ -192,7 +192,7 @@ def main(run, mc=None, budget=None, finish=True):
     rows = r.ex("PROG")
     run.log(f"TLC: {len(rows)} specified programs")
     heads = {"seq": ["lfor", "sfor", "gfor"], "dict": ["dfor"], "for": ["for"]}
-    budget = budget or (14000 if q else 200000)
+    budget = budget or (14000 if q else 60000)
     # all short programs, a sample of the long ones
     rows.sort(key=lambda x: (len(x["cl"]), json.dumps(x, sort_keys=True)))
     ns = 1 if q else 2
